@@ -341,10 +341,16 @@ impl<F: Float> GaussianMixtureModel<F> {
         observations: &ArrayBase<D, Ix2>,
     ) -> (Array1<F>, Array2<F>) {
         let weighted_log_prob = self.estimate_weighted_log_prob(observations);
-        let log_prob_norm = weighted_log_prob
+        // log-sum-exp with the row maximum taken out: far from every component all the
+        // exponentials underflow and ln(0) would make the responsibilities infinite
+        let row_max = weighted_log_prob.map_axis(Axis(1), |row| {
+            row.fold(F::neg_infinity(), |acc, &x| if x > acc { x } else { acc })
+        });
+        let log_prob_norm = (&weighted_log_prob - &row_max.view().insert_axis(Axis(1)))
             .mapv(|x| x.exp())
             .sum_axis(Axis(1))
-            .mapv(|x| x.ln());
+            .mapv(|x| x.ln())
+            + &row_max;
         let log_resp = weighted_log_prob - log_prob_norm.to_owned().insert_axis(Axis(1));
         (log_prob_norm, log_resp)
     }
